@@ -559,7 +559,7 @@ PROPS = {
                   lambda prog, tier: fmt.run(prog), lambda prog, tier: fmt.run_args(prog),
                   lambda prog, tier: floatidx.run(prog),
                   lambda prog, tier: allockind.run(prog),
-                  lambda prog, tier: intdiv.run(prog),
+                  lambda prog, tier: intdiv.run(prog), lambda prog, tier: intdiv.run_quotient(prog),
                   lambda prog, tier: localfield.run(prog, shared_eff(prog)),
                   lambda prog, tier: strscan.run(prog), lambda prog, tier: strscan.run_advance(prog),
                   lambda prog, tier: rawidx.run(prog),
@@ -914,6 +914,10 @@ for _pid in ("C12", "C17"):
     _ADD[_pid]["explanation"] = _ADD[_pid].get("explanation", "") + (
         " (R-LOOPZERO) a down-counting loop that starts at <count> - 1 and subscripts with its counter runs while the counter is >= 0: element 0 "
         "is part of the scan.")
+_ADD.setdefault("C17", {})
+_ADD["C17"]["explanation"] = _ADD["C17"].get("explanation", "") + (
+    " (R-QUOTDIV) an integer division or remainder by a record field that is computed as an integer quotient (zero when the dividend is the smaller "
+    "number) is dominated by a comparison of that field.")
 _ADD.setdefault("C17", {})
 _ADD["C17"]["explanation"] = _ADD["C17"].get("explanation", "") + (
     " (R-CAPSYNC) a pointer field that is paired with a capacity field (some function allocates it with a computed length and stores that very "
